@@ -75,13 +75,35 @@ class ZAtom:
 # ----------------------------------------------------------------------------------------
 # field values
 # ----------------------------------------------------------------------------------------
+class PToken:
+    """a symbolic prime modulus p >= 2 (the class attribute `field_modulus` of a generic field
+    class); the only operations the source performs with it are `x % p`, `pow(x, e, p)` and
+    passing it to prime_field_inv -- all handled through the ModInt reading"""
+
+    def __init__(self, name="p"):
+        self.name = name
+
+    def __repr__(self):
+        return f"<prime {self.name}>"
+
+
+def in_range(v, modulus):
+    """is the literal integer v certainly in [0, modulus)?"""
+    if modulus is None:
+        return True
+    if isinstance(modulus, PToken):
+        return v in (0, 1)
+    return 0 <= v < modulus
+
+
 class FldKind:
     """the 'class' of a symbolic field element: carries what `.one()`, `.zero()`,
-    `.__class__` need, plus (for the integer-mod-P reading used by secp256k1) the modulus."""
+    `.__class__` need, plus (for the integer-mod-P reading used by secp256k1 and by the field
+    classes) the modulus: a concrete int or a PToken."""
 
     def __init__(self, name, modulus=None):
         self.name = name
-        self.modulus = modulus      # concrete int for the ModInt reading, else None
+        self.modulus = modulus      # int / PToken for the ModInt reading, else None
 
     def one(self):
         return Fld(R(1), self, reduced=True)
@@ -93,7 +115,7 @@ class FldKind:
         if isinstance(v, Fld):
             return v
         if isinstance(v, int):
-            return Fld(R(v), self, reduced=(self.modulus is None or 0 <= v < self.modulus))
+            return Fld(R(v), self, reduced=in_range(v, self.modulus))
         raise Unsupported(f"{self.name}({type(v).__name__})")
 
     def __repr__(self):
@@ -104,12 +126,15 @@ class Fld:
     """symbolic element of an arbitrary field (characteristic outside PCtx.char_excl).
     For kinds with a modulus it reads as 'an integer, viewed modulo P'; `reduced` then says the
     integer itself is known to lie in [0, P)."""
-    __slots__ = ("r", "kind", "reduced")
+    __slots__ = ("r", "kind", "reduced", "zf")
 
-    def __init__(self, r, kind, reduced=True):
+    def __init__(self, r, kind, reduced=True, zf=None):
         self.r = r
         self.kind = kind
         self.reduced = reduced
+        # zero-faithful: the integer is 0 exactly when it is 0 modulo p.  Holds for reduced values,
+        # for -x and x*y of zero-faithful x, y (p prime), not for sums.
+        self.zf = bool(reduced or kind.modulus is None) if zf is None else bool(zf or reduced)
 
     # -- helpers
     def _co(self, o):
@@ -118,34 +143,42 @@ class Fld:
         if isinstance(o, bool):
             o = int(o)
         if isinstance(o, int):
-            return Fld(R(o), self.kind, reduced=(self.kind.modulus is None or 0 <= o < self.kind.modulus))
+            return Fld(R(o), self.kind, reduced=in_range(o, self.kind.modulus), zf=(o in (0, 1, -1)))
         return None
 
-    def _mk(self, r):
-        return Fld(r, self.kind, reduced=(self.kind.modulus is None))
+    def _mk(self, r, zf=False):
+        return Fld(r, self.kind, reduced=(self.kind.modulus is None), zf=zf)
 
     def __add__(self, o):
+        if isinstance(o, int) and not isinstance(o, bool) and o == 0:
+            return self                     # n + 0 is n exactly
         o = self._co(o)
         return NotImplemented if o is None else self._mk(self.r + o.r)
 
     __radd__ = __add__
 
     def __sub__(self, o):
+        if isinstance(o, int) and not isinstance(o, bool) and o == 0:
+            return self
         o = self._co(o)
         return NotImplemented if o is None else self._mk(self.r - o.r)
 
     def __rsub__(self, o):
         o = self._co(o)
-        return NotImplemented if o is None else self._mk(o.r - self.r)
+        if o is None:
+            return NotImplemented
+        return self._mk(o.r - self.r, zf=(self.zf and o.r.n.is_zero()))
 
     def __mul__(self, o):
+        if isinstance(o, int) and not isinstance(o, bool) and o == 1:
+            return self
         o = self._co(o)
-        return NotImplemented if o is None else self._mk(self.r * o.r)
+        return NotImplemented if o is None else self._mk(self.r * o.r, zf=(self.zf and o.zf))
 
     __rmul__ = __mul__
 
     def __neg__(self):
-        return self._mk(-self.r)
+        return self._mk(-self.r, zf=self.zf)
 
     def __pow__(self, k):
         if isinstance(k, bool) or not isinstance(k, int) or k < 0:
@@ -154,22 +187,40 @@ class Fld:
             raise Unsupported("large symbolic power; needs a contract")
         return self._mk(self.r ** k)
 
+    def _no_int_div(self):
+        if self.kind.modulus is not None and cur().in_source:
+            raise Unsupported("true division `/` of plain integers in the source (float result)")
+
     def __truediv__(self, o):
         o = self._co(o)
         if o is None:
             return NotImplemented
+        self._no_int_div()
         return fdiv(self, o)
 
     def __rtruediv__(self, o):
         o = self._co(o)
-        return NotImplemented if o is None else fdiv(o, self)
+        if o is None:
+            return NotImplemented
+        self._no_int_div()
+        return fdiv(o, self)
 
     def __mod__(self, m):
-        if self.kind.modulus is not None and isinstance(m, int) and m == self.kind.modulus:
+        km = self.kind.modulus
+        if km is not None and (m is km or (isinstance(m, int) and isinstance(km, int) and m == km)):
             return Fld(self.r, self.kind, reduced=True)
-        raise Unsupported("% on a field value")
+        raise Unsupported("% on a field value with something other than the field modulus")
+
+    def __rmod__(self, o):
+        raise Unsupported("% with a field value as divisor")
 
     def _cmp_ok(self, o):
+        if self.kind.modulus is not None and cur().in_source:
+            # comparison with the literal 0 only needs zero-faithfulness
+            if o.r.n.is_zero() and self.zf:
+                return
+            if self.r.n.is_zero() and o.zf:
+                return
         if self.kind.modulus is not None and cur().in_source and not (self.reduced and o.reduced):
             cur().safety("compare-canonical", False,
                          "comparison of an integer that is not reduced modulo P")
@@ -489,6 +540,7 @@ class Explorer:
         self.max_paths = max_paths
         self.current_function = None
         self.path_log = []
+        self.deadline = None        # wall-clock limit for the whole unit (set by the unit runner)
 
     def push(self, decisions):
         self.work.append(list(decisions))
@@ -505,6 +557,11 @@ class Explorer:
             dec = self.work.pop()
             if self.paths >= self.max_paths:
                 self.unsupported.append(f"{function_name}: path limit {self.max_paths} reached")
+                self.work.clear()
+                break
+            if self.deadline is not None and time.time() > self.deadline:
+                self.unsupported.append(f"{function_name}: time budget of the unit exceeded after {self.paths} paths")
+                self.work.clear()
                 break
             path = Path(self, dec)
             prev, _current = _current, path
